@@ -314,7 +314,8 @@ class wave_function(ABC):
         if restricted:
             if self.nelec[0] == self.nelec[1]:
                 det_overlap = np.linalg.det(
-                    natorbs_up[:, : self.nelec[0]].T @ natorbs_dn[:, : self.nelec[1]]
+                    natorbs_up[:, : self.nelec[0]].T.conj()
+                    @ natorbs_dn[:, : self.nelec[1]]
                 )
                 if (
                     np.abs(det_overlap) > 1e-3
@@ -323,17 +324,21 @@ class wave_function(ABC):
                 else:
                     overlaps = np.array(
                         [
-                            natorbs_up[:, i].T @ natorbs_dn[:, i]
+                            natorbs_up[:, i].T.conj() @ natorbs_dn[:, i]
                             for i in range(self.nelec[0])
                         ]
                     )
                     new_vecs = natorbs_up[:, : self.nelec[0]] + np.einsum(
-                        "ij,j->ij", natorbs_dn[:, : self.nelec[1]], np.sign(overlaps)
+                        "ij,j->ij",
+                        natorbs_dn[:, : self.nelec[1]],
+                        np.conj(np.sign(overlaps)),  # phase alignment (sign for real orbitals)
                     )
                     new_vecs = np.linalg.qr(new_vecs)[0]
                     det_overlap = np.linalg.det(
-                        new_vecs.T @ natorbs_up[:, : self.nelec[0]]
-                    ) * np.linalg.det(new_vecs.T @ natorbs_dn[:, : self.nelec[1]])
+                        new_vecs.T.conj() @ natorbs_up[:, : self.nelec[0]]
+                    ) * np.linalg.det(
+                        new_vecs.T.conj() @ natorbs_dn[:, : self.nelec[1]]
+                    )
                     if np.abs(det_overlap) > 1e-3:
                         return jnp.array([new_vecs + 0.0j] * n_walkers)
                     else:
